@@ -546,22 +546,41 @@ impl<T: PartialOrd> Interval<T> {
     }
 }
 impl<T: PartialOrd + Copy> Interval<T> {
-    fn applied<F>(&self, f_low: F, f_high: F) -> Self
-    where
-        F: FnOnce(T) -> T,
-    {
-        match self {
-            Interval::TwoSided(low, high) => Interval::TwoSided(f_low(*low), f_high(*high)),
-            Interval::LowerOneSided(low) => Interval::UpperOneSided(f_low(*low)),
-            Interval::UpperOneSided(high) => Interval::LowerOneSided(f_high(*high)),
-        }
-    }
-
-    fn applied_both<F>(&self, f: F) -> Self
+    /// Image of the interval under a monotone function `f`.
+    /// If `f` is decreasing, the bounds exchange their roles (and a one-sided interval changes direction).
+    fn applied<F>(&self, f: F, increasing: bool) -> Self
     where
         F: Fn(T) -> T,
     {
-        self.applied(&f, &f)
+        match (self, increasing) {
+            (Interval::TwoSided(low, high), true) => Interval::TwoSided(f(*low), f(*high)),
+            (Interval::TwoSided(low, high), false) => Interval::TwoSided(f(*high), f(*low)),
+            (Interval::UpperOneSided(low), true) => Interval::UpperOneSided(f(*low)),
+            (Interval::UpperOneSided(low), false) => Interval::LowerOneSided(f(*low)),
+            (Interval::LowerOneSided(high), true) => Interval::LowerOneSided(f(*high)),
+            (Interval::LowerOneSided(high), false) => Interval::UpperOneSided(f(*high)),
+        }
+    }
+
+    /// Image of the interval under multiplication or division by `rhs`, whose direction depends on the sign of `rhs`.
+    fn scaled<F>(&self, f: F, rhs: T) -> Self
+    where
+        F: Fn(T) -> T,
+        T: num_traits::Zero,
+    {
+        if rhs > T::zero() {
+            self.applied(f, true)
+        } else if rhs < T::zero() {
+            self.applied(f, false)
+        } else {
+            // multiplication by zero collapses the interval to a single point
+            match self {
+                Interval::TwoSided(low, high) => Interval::TwoSided(f(*low), f(*high)),
+                Interval::UpperOneSided(x) | Interval::LowerOneSided(x) => {
+                    Interval::TwoSided(f(*x), f(*x))
+                }
+            }
+        }
     }
 }
 
@@ -643,19 +662,19 @@ where
     }
 }
 
-impl<F: Mul<F, Output = F> + PartialOrd + Copy> Mul<F> for Interval<F> {
+impl<F: Mul<F, Output = F> + PartialOrd + Copy + num_traits::Zero> Mul<F> for Interval<F> {
     type Output = Self;
 
     fn mul(self, rhs: F) -> Self::Output {
-        self.applied_both(|x| x * rhs)
+        self.scaled(|x| x * rhs, rhs)
     }
 }
 
-impl<F: Div<F, Output = F> + PartialOrd + Copy> Div<F> for Interval<F> {
+impl<F: Div<F, Output = F> + PartialOrd + Copy + num_traits::Zero> Div<F> for Interval<F> {
     type Output = Self;
 
     fn div(self, rhs: F) -> Self::Output {
-        self.applied_both(|x| x / rhs)
+        self.scaled(|x| x / rhs, rhs)
     }
 }
 
@@ -663,7 +682,7 @@ impl<F: Add<F, Output = F> + PartialOrd + Copy> Add<F> for Interval<F> {
     type Output = Self;
 
     fn add(self, rhs: F) -> Self::Output {
-        self.applied_both(|x| x + rhs)
+        self.applied(|x| x + rhs, true)
     }
 }
 
@@ -671,7 +690,7 @@ impl<F: Sub<F, Output = F> + PartialOrd + Copy> Sub<F> for Interval<F> {
     type Output = Self;
 
     fn sub(self, rhs: F) -> Self::Output {
-        self.applied_both(|x| x - rhs)
+        self.applied(|x| x - rhs, true)
     }
 }
 
@@ -679,7 +698,7 @@ impl<F: Neg<Output = F> + PartialOrd + Copy> Neg for Interval<F> {
     type Output = Self;
 
     fn neg(self) -> Self::Output {
-        self.applied_both(|x| -x)
+        self.applied(|x| -x, false)
     }
 }
 
